@@ -1495,6 +1495,9 @@ theorem G_runOp {c : Cfg} (hstrict : c.tr = .serial → c.partialReads = false) 
   | kpWriteKeyStore d => exact G_dataOutCmd hstrict _ _ _
   | kpReadKeyStore => exact G_dataInCmd hstrict _ _ _
   | reset r => exact absurd ht id
+  | logCmd t ps => exact G_simpleCmd hstrict _ _
+  | fuseProgram a d m => exact G_dataOutCmd hstrict _ _ _
+  | fuseRead a n m => exact G_dataInCmd hstrict _ _ _
 
 theorem observable_of_cut {c : Cfg} (xf xt : Except HErr Val × Host) (he : xt.1 = xf.1) (hc : Cut c xf.2 xt.2) :
     observable xt = observable xf := by
